@@ -9,10 +9,10 @@ META = dict(
     explanation='displacement(), slip_vector.pyx (re-translated), disregistry() and DifferentialDisplacement.solve are executed on a concrete reference crystal (bcc 2x4x2, 32 atoms; concrete neighbour list) with a SYMBOLIC imposed deformation: an arbitrary bounded displacement of individual atoms (displacement through the periodic boundaries), a rigid slip vector of the upper half crystal (3 symbolic components), a common symbolic translation and a consistent renumbering.',
     functions=['atomman/core/displacement.py:displacement', 'atomman/core/dvect.pyx:dvect_c', 'atomman/defect/slip_vector.pyx:slip_vector,slip_vector_c', 'atomman/defect/disregistry.py:disregistry', 'atomman/defect/DifferentialDisplacement.py:solve',
                'atomman/core/System.py:dvect'],
-    bounds=dict(quick='bcc a=2.87 supercell 2x4x2 (32 atoms), first-shell cutoff; displacement of 3 chosen atoms (one next to a periodic face) with |u_k| <= 0.2 a; rigid slip |s_k| <= 0.2 a of the half crystal above a plane between layers, periodicity (T,F,T); symbolic common translation |t_k| <= 0.5 a (atoms may leave the cell); one cyclic renumbering',
+    bounds=dict(quick='bcc a=2.87 supercell 2x4x2 (32 atoms), first-shell cutoff; displacement of 3 chosen atoms (one next to a periodic face) with |u_k| <= 0.2 a; rigid slip |s_k| <= 0.2 a of the half crystal above a plane between layers, periodicity (T,F,T); symbolic common translation |t_k| <= 0.5 a (atoms may leave the cell); one cyclic renumbering; slip vector also with free surfaces cutting the slip plane (pbc FFT, TFF, FFF); displacement() for two concrete homogeneous deformations (stretches and shears up to 3%) of a 16-atom cell with symbolic translation, symbolic extra displacement of two atoms, atoms stored as periodic images, both box_reference choices; DifferentialDisplacement with reference 0 and 1',
                 thorough='same plus pbc TTT (two slip planes)'),
     outside=['Strain / nye_tensor (solve_G, solve_nye: lstsq on neighbour-vector matrices selected by an angular matching loop; with a symbolic deformation gradient every comparison forks, with a concrete one nothing is symbolic)',
-             'other reference crystals and sizes (concrete reference: the verdict is per reference crystal, for all deformation amplitudes in the bound)', 'IEEE-754 rounding'],
+             'a SYMBOLIC deformation gradient in displacement() (symbolic cell in the minimum-image kernel: 16/16 queries unknown after 380 s; the deformation is enumerated concretely instead)', 'other reference crystals and sizes (concrete reference: the verdict is per reference crystal, for all deformation amplitudes in the bound)', 'IEEE-754 rounding'],
     lemmas=[], cuts=['np.interp in disregistry replaced by its piecewise-linear definition for concrete abscissae and symbolic ordinates'],
     assumptions=['displacements below a quarter of the smallest cell width so that no periodic image switches'], trusted=['pyx2py translator (validated in C02/C03)'],
 )
@@ -59,8 +59,43 @@ def h_displacement(pbc):
     return fn
 
 
-def half_crystal():
-    pbc = (True, False, True)
+def h_displacement_deformed(refbox, strain):
+    """homogeneous deformation + translation; some atoms of the deformed system stored as periodic images (moved by
+    integer cell vectors of the box named by box_reference)"""
+    def fn():
+        import atomman as am
+        cell = am.System(atoms=am.Atoms(pos=np.array([[0, 0, 0], [0.5, 0.5, 0.5]]), atype=[1, 1]), box=am.Box.cubic(A), scale=True, symbols=['Fe'])
+        s0 = cell.supersize(2, 2, 2)
+        pos0 = np.array(s0.atoms.pos, dtype=float)
+        n = s0.natoms
+        L = 2 * A
+        e, g = strain[:3], strain[3:]                                           # stretches; shears xy, xz, yz (concrete: a symbolic cell makes every
+        t = [var(f't{k}', -0.1, 0.1) for k in range(3)]                        #  minimum-image query nonlinear - measured 16/16 unknown after 380 s)
+        extra = {1: [var(f'w1_{j}', -0.15, 0.15) for j in range(3)], n - 2: [var(f'w2_{j}', -0.15, 0.15) for j in range(3)]}
+        # deformed cell in LAMMPS form: a=(lx,0,0) b=(xy,ly,0) c=(xz,yz,lz); F maps the old cell vectors onto the new ones
+        lx, ly, lz = L * (1 + e[0]), L * (1 + e[1]), L * (1 + e[2])
+        xy, xz, yz = L * g[0], L * g[1], L * g[2]
+        box1 = am.Box(lx=lx, ly=ly, lz=lz, xy=xy, xz=xz, yz=yz)
+        V1 = [[lx, 0, 0], [xy, ly, 0], [xz, yz, lz]]
+        V0 = [[L, 0, 0], [0, L, 0], [0, 0, L]]
+        Vw = V1 if refbox == 'final' else V0
+        U = np.empty((n, 3), dtype=object); P1 = np.empty((n, 3), dtype=object)
+        for i in range(n):
+            r = pos0[i] / L                                                       # relative coordinates are kept by a homogeneous deformation
+            new = [sum(float(r[k]) * V1[k][j] for k in range(3)) + t[j] + (extra[i][j] if i in extra else 0.0) for j in range(3)]
+            for j in range(3): U[i, j] = new[j] - float(pos0[i, j])
+            img = [(i % 3) - 1, ((i // 3) % 3) - 1, ((i // 2) % 2)]              # stored as a periodic image
+            for j in range(3): P1[i, j] = new[j] + sum(img[k] * Vw[k][j] for k in range(3))
+        s1 = am.System(atoms=am.Atoms(pos=sa(P1)), box=box1, pbc=(True, True, True))
+        d = am.displacement(s0, s1, box_reference=refbox)
+        ob = [('displacement shape', np.shape(d) == (n, 3))]
+        for i in range(n):
+            ob.append((f'atom {i}: displacement == imposed homogeneous deformation + translation, through the periodic boundaries of the {refbox} box', band(*[close(d[i, j], U[i, j], 1e-9, 10.0) for j in range(3)])))
+        return ob
+    return fn
+
+
+def half_crystal(pbc=(True, False, True)):
     s0 = reference(pbc)
     pos0 = np.array(s0.atoms.pos, dtype=float)
     ys = np.unique(np.round(pos0[:, 1], 8))
@@ -69,10 +104,10 @@ def half_crystal():
     return s0, pos0, upper, yplane, pbc
 
 
-def h_slip(translate, permute):
+def h_slip(translate, permute, pbc=(True, False, True)):
     def fn():
         import atomman as am
-        s0, pos0, upper, yplane, pbc = half_crystal()
+        s0, pos0, upper, yplane, _ = half_crystal(pbc)
         n = s0.natoms
         S = [var(f's{j}', -0.2 * A, 0.2 * A) for j in range(3)]
         T = [var(f't{j}', -0.5 * A, 0.5 * A) for j in range(3)] if translate else [0.0, 0.0, 0.0]
@@ -116,7 +151,7 @@ def h_disregistry():
     return fn
 
 
-def h_dd():
+def h_dd(reference=0):
     def fn():
         import atomman as am
         s0, pos0, upper, yplane, pbc = half_crystal()
@@ -127,7 +162,7 @@ def h_dd():
             for j in range(3): U[c, j] = var(f'u{c}_{j}', -0.2 * A, 0.2 * A)
         s1 = am.System(atoms=am.Atoms(pos=sa(pos0.astype(object) + U)), box=s0.box, pbc=pbc)
         nl = am.NeighborList(system=s0, cutoff=0.9 * A)
-        dd = am.defect.DifferentialDisplacement(s0, s1, neighbors=nl, reference=0)
+        dd = am.defect.DifferentialDisplacement(s0, s1, neighbors=nl, reference=reference)
         vecs = dd.ddvectors
         pairs = [(i, int(j)) for i in range(n) for j in nl[i]]
         ob = [('one differential displacement per neighbour pair', np.shape(vecs) == (len(pairs), 3))]
@@ -169,6 +204,14 @@ def cases(tier, seed=0):
     for pbc in ((True, True, True), (True, False, True)):
         cs.append(Case(f'displacement_{"".join("T" if p else "F" for p in pbc)}', h_displacement(pbc), bind=BIND, kernels=KER, maxcases=32, budget_s=170, timeout_ms=20000, weight=3,
                        descr=f'displacement() returns the imposed displacement through the periodic boundaries, pbc {pbc}'))
+    for refbox in ('final', 'initial'):
+      for ns, strain in enumerate(((0.02, -0.01, 0.03, 0.015, -0.02, 0.01), (-0.03, 0.02, 0.0, 0.0, 0.025, -0.015)) if tier == 'quick' else ((0.02, -0.01, 0.03, 0.015, -0.02, 0.01), (-0.03, 0.02, 0.0, 0.0, 0.025, -0.015), (0.0, 0.0, 0.0, 0.03, 0.0, 0.0), (0.03, 0.03, 0.03, 0.0, 0.0, 0.0))):
+        cs.append(Case(f'displacement_deformed_{refbox}_{ns}', h_displacement_deformed(refbox, strain), bind=BIND, kernels=KER, maxcases=32, budget_s=170, timeout_ms=20000, weight=3,
+                       descr=f'displacement() for a homogeneous deformation {strain} (stretches, shears) + symbolic translation + symbolic extra displacement of two atoms, atoms stored as periodic images, box_reference={refbox}'))
+    for pbc in ((False, False, True), (True, False, False), (False, False, False)):
+        cs.append(Case(f'slip_vector_pbc{"".join("T" if p else "F" for p in pbc)}', h_slip(False, True, pbc), bind=BIND, kernels=KER, maxcases=32, budget_s=170, timeout_ms=20000, weight=3,
+                       descr=f'slip_vector with free surfaces cutting the slip plane (coordination varies from atom to atom), pbc {pbc}, atoms renumbered'))
+    cs.append(Case('differential_displacement_ref1', h_dd(1), bind=BIND, kernels=KER, maxcases=32, budget_s=170, timeout_ms=20000, descr='DifferentialDisplacement with reference=1'))
     for tr, pm in ((False, False), (True, False), (False, True)):
         cs.append(Case(f'slip_vector{"_translated" if tr else ""}{"_renumbered" if pm else ""}', h_slip(tr, pm), bind=BIND, kernels=KER, maxcases=32, budget_s=170, timeout_ms=20000, weight=3,
                        descr=f'slip_vector for a rigid slip of the upper half crystal{", both systems translated together" if tr else ""}{", atoms renumbered consistently" if pm else ""}'))
